@@ -2,7 +2,8 @@
 (* M for the integer back end: BigNat against TLC's native arithmetic and against algebraic
    identities on operands beyond 32 bits.  Every initial state is one operand pair. *)
 EXTENDS BigNat, TLC
-CONSTANT N                      \* all pairs below N are checked natively
+CONSTANTS N,                    \* all pairs below N are checked natively
+          AllWide               \* TRUE: all pairs of wide operands; FALSE: wide x WideFew
 VARIABLES a, b, mode, ph      \* ph = 0: only a chosen (no check yet); ph = 1: pair complete
 
 \* pseudo-random 30-bit values (two 15-bit halves of a Lehmer sequence modulo 65537)
@@ -25,12 +26,14 @@ Wide == {TwoTo63, Sub(TwoTo63, <<1>>), Add(TwoTo63, <<1>>), Dbl(64), Dbl(31), Db
          <<1234, 5678, 9012, 3456, 7890, 1234>>, <<4321, 8765, 2109>>}
 
 \* two phases so that TLC's workers share the pairs (initial states are computed by one thread)
+WideFew == {TwoTo63, TenTo30, <<9999, 0, 9999>>, <<1, 0, 0, 1>>, <<7>>, <<1234, 5678, 9012, 3456, 7890, 1234>>}
+
 Init == /\ ph = 0
         /\ \/ mode = "native" /\ a \in Native
            \/ mode = "wide" /\ a \in Wide
         /\ b = a
 Next == /\ ph = 0 /\ ph' = 1 /\ UNCHANGED <<a, mode>>
-        /\ b' \in (IF mode = "native" THEN Native ELSE Wide)
+        /\ b' \in (IF mode = "native" THEN Native ELSE IF AllWide THEN Wide ELSE WideFew)
 
 Fits(x, y) == x = 0 \/ y <= 2147483647 \div x
 
